@@ -162,9 +162,9 @@ pub fn any_add_policy() -> DictionaryAddPolicy {
     let k: u8 = kani::any();
     kani::assume(k <= 4);
     let lim: u16 = kani::any();
-    // estimate_add_policy: AddFirst(max_length) with max_length < 258;
-    // AddFirstAndLast(max_length_last_add) with max_length_last_add < max_length <= 258
-    kani::assume(lim <= 257);
+    // estimate_add_policy keeps the limit within the 8 bits the parameter header carries
+    // (discharged on the real function by k02h_add_policy_range)
+    kani::assume(lim <= 255);
     match k {
         0 => DictionaryAddPolicy::AddAll,
         1 => DictionaryAddPolicy::AddFirst(lim),
@@ -201,9 +201,9 @@ pub fn any_predictor_params() -> TokenPredictorParameters {
     let mem_level: u32 = kani::any();
     kani::assume(mem_level >= 1 && mem_level <= 9);
     let min_len: u32 = kani::any();
-    // info.min_len: smallest reference length seen (3..=258); u32::MAX when the
-    // Huffman blocks contain no reference at all (stored + literal-only mix)
-    kani::assume((min_len >= 3 && min_len <= 258) || min_len == u32::MAX);
+    // smallest reference length seen (3..=258), or 0 when the Huffman blocks contain no reference at all
+    // (stored + literal-only mix); discharged on the real estimator front end by k05d_info_params
+    kani::assume((min_len >= 3 && min_len <= 258) || min_len == 0);
     let (matching_type, nice_length) = any_match_row();
     let strategy = if kani::any() { PreflateStrategy::Default } else { PreflateStrategy::RleOnly };
     let max_dist_3_matches: u16 = kani::any();
@@ -307,8 +307,8 @@ impl<const N: usize> Read for SrcEof<N> {
     }
     /// overrides the provided method (no default_read_exact loop); UnexpectedEof at the end like std
     fn read_exact(&mut self, buf: &mut [u8]) -> std::io::Result<()> {
-        if buf.len() > self.len - self.pos {
-            self.pos = self.len;
+        if self.pos > self.len || buf.len() > self.len - self.pos {
+            if self.pos < self.len { self.pos = self.len; }
             return Err(std::io::Error::from(std::io::ErrorKind::UnexpectedEof));
         }
         let mut i = 0;
@@ -318,6 +318,23 @@ impl<const N: usize> Read for SrcEof<N> {
             i += 1;
         }
         Ok(())
+    }
+}
+
+/// Seek with Cursor's semantics (seeking past the end is allowed), so that harnesses keep compiling —
+/// and keep their position assertions — if a parser starts to skip fields by seeking
+impl<const N: usize> std::io::Seek for SrcEof<N> {
+    fn seek(&mut self, pos: std::io::SeekFrom) -> std::io::Result<u64> {
+        let np: i64 = match pos {
+            std::io::SeekFrom::Start(p) => p as i64,
+            std::io::SeekFrom::Current(d) => self.pos as i64 + d,
+            std::io::SeekFrom::End(d) => self.len as i64 + d,
+        };
+        if np < 0 {
+            return Err(std::io::Error::from(std::io::ErrorKind::InvalidInput));
+        }
+        self.pos = np as usize;
+        Ok(np as u64)
     }
 }
 
@@ -475,4 +492,23 @@ pub fn ref_fixed_block(data: &[u8], start: usize, window: usize) -> RefBlock {
         i += 1;
     }
     out
+}
+
+
+/// Stand-in for BitWriter::flush_whole_bytes that appends WITHOUT reallocation (capacity is asserted): the
+/// same three statements per byte as the real function, with `Vec::push` replaced by a write into the spare
+/// capacity.  With a symbolic number of pending bits every real `push` site may reallocate, and CBMC's
+/// pointer value sets then explode (measured: a one-token writer harness did not finish in 16 min; 111
+/// unwindings of this loop).  The real function runs in k07a_stored_rewrite_* and k02f_block_structure.
+pub fn stub_flush_whole_bytes(bw: &mut crate::bit_writer::BitWriter, data_buffer: &mut Vec<u8>) {
+    while bw.bits_in >= 8 {
+        let l = data_buffer.len();
+        assert!(l < data_buffer.capacity(), "harness bound: output capacity");
+        unsafe {
+            *data_buffer.as_mut_ptr().add(l) = bw.bit_buffer as u8;
+            data_buffer.set_len(l + 1);
+        }
+        bw.bit_buffer >>= 8;
+        bw.bits_in -= 8;
+    }
 }
